@@ -39,7 +39,9 @@ def floors(m, tier):
             "contract evaluated during demo config load": (m.counters.get("evaluated_during_config_load", 0), NSHARDS),
             "configs with key name inside basetype": (m.counters.get("cfg:key_in_basetype", 0), 100),
             "configs with explicit intermediates": (m.counters.get("cfg:explicit_intermediate", 0), 100),
-            "configs with two hierarchies in one basetype": (m.counters.get("cfg:two_hierarchies_one_basetype", 0), 100)}
+            "configs with two hierarchies in one basetype": (m.counters.get("cfg:two_hierarchies_one_basetype", 0), 100),
+            "loader runs on generated configurations": (m.counters.get("loader_runs", 0), BUDGET[tier] // 20),
+            "loader runs with a selector matching a generated type": (m.counters.get("loader_runs_with_selector_on_generated_type", 0), BUDGET[tier] // 200)}
 
 
 def run(snap, tier, seed, t0, replay):
@@ -241,6 +243,11 @@ def gen_config(rng):
 def gen_patterns(rng, templates):
     sels = ["__", "t", "a", "zz"] + [n[:rng.randint(1, len(n))] for n in rng.sample(list(templates), min(2, len(templates)))] + \
            [n.split(SEP)[0] + SEP for n in templates][:2]
+    # selectors that (only) match GENERATED type names: the full name, or the separator + key
+    gen_names = [n for n, _ in ref_extrapolate(dict(templates), [n for n in templates])[0] if n not in templates]
+    if gen_names:
+        g = rng.choice(gen_names)
+        sels += [g, SEP + g.split(SEP)[-1]]
     kp = {}
     for s in rng.sample(sels, rng.randint(1, min(4, len(sels)))):
         repl = {}
@@ -250,6 +257,52 @@ def gen_patterns(rng, templates):
             repl[find] = "{%s:(%s|\\*)}" % (k, rng.choice(["x|y", "a", r"v\d\d\d"]))
         kp[s] = repl
     return kp
+
+
+LOADER = {"code": None, "origin": None}
+
+
+def loader_one(rec, templates, to_ex, kp):
+    """The LOADER (spil/conf/sid_conf_load.py) run on a generated 'spil_sid_conf' module: what it leaves in sid_templates must be
+    the reference pipeline - extrapolate the configured templates, THEN rewrite patterns (selectors see the generated type names)."""
+    import types
+    if LOADER["code"] is None:
+        spec = importlib.util.find_spec("spil.conf.sid_conf_load")
+        LOADER["origin"] = spec.origin
+        LOADER["code"] = compile(open(spec.origin).read(), spec.origin, "exec")
+    case = {"templates": list(templates.items()), "to_extrapolate": to_ex, "key_patterns": kp, "loader": True}
+    pairs, judged = ref_extrapolate(dict(templates), list(to_ex))
+    if not judged or len({n for n, _ in pairs}) != len(pairs):
+        return
+    exp = list(ref_pattern_replacing(dict(pairs), kp).items())
+    mod = types.ModuleType("spil_sid_conf")
+    mod.sid_templates = dict(templates)
+    mod.to_extrapolate = list(to_ex)
+    mod.key_patterns = copy.deepcopy(kp)
+    old = sys.modules.get("spil_sid_conf")
+    sys.modules["spil_sid_conf"] = mod
+    ns = {"__name__": "spil.conf.sid_conf_load__verif"}
+    err = None
+    try:
+        exec(LOADER["code"], ns)
+    except ContractBroken:
+        return            # (reported by one() for the same input)
+    except Exception as e:
+        err = e           # typically the resolver refusing a generated pattern: the templates are in place by then
+    finally:
+        if old is not None:
+            sys.modules["spil_sid_conf"] = old
+        else:
+            sys.modules.pop("spil_sid_conf", None)
+    got = ns.get("sid_templates")
+    if not isinstance(got, dict) or (err is not None and list(got.items()) == list(templates.items())):
+        rec.count("loader_runs_without_result")
+        return
+    rec.count("loader_runs")
+    if any(n not in templates for n, _ in pairs) and any(sel in n and n not in templates for sel in kp for n, _ in pairs):
+        rec.count("loader_runs_with_selector_on_generated_type")
+    if list(got.items()) != exp:
+        rec.violation("loaded_templates_differ_from_reference_pipeline", case, "expected=%r got=%r" % (exp[:12], list(got.items())[:12]))
 
 
 def one(rec, util, templates, to_ex, kp, flags):
@@ -304,7 +357,9 @@ def worker(args):
     if "replay" in args:
         c = args["replay"]
         rec.ev()
-        if c.get("phase") != "load":
+        if c.get("loader"):
+            loader_one(rec, dict(c["templates"]), c["to_extrapolate"], c["key_patterns"])
+        elif c.get("phase") != "load":
             one(rec, util, dict(c["templates"]), c["to_extrapolate"], c["key_patterns"], set())
         return rec.result()
     for it in range(args["n"]):
@@ -314,6 +369,8 @@ def worker(args):
         for f in flags:
             rec.count("cfg:" + f)
         one(rec, util, templates, to_ex, kp, flags)
+        if it % 6 == 0:
+            loader_one(rec, templates, to_ex, kp)
         if it % 2999 == 0:
             rec.sample({"templates": templates, "to_extrapolate": to_ex, "key_patterns": kp})
     return rec.result()
